@@ -934,8 +934,14 @@ def unroll_circuit_op_greedy_earliest(
             batch_replace.append((i, op, op_untagged.with_tags(*op.tags)))
     unrolled_circuit = circuit.unfreeze(copy=True)
     unrolled_circuit.batch_replace(batch_replace)
-    unrolled_circuit.batch_remove(batch_remove)
-    unrolled_circuit.batch_insert(batch_insert)
+    # Replace the sub-circuits moment by moment, from the last moment to the first one: the indices
+    # of the remaining ones stay valid and the operations of one sub-circuit cannot slide into the
+    # slot vacated by a later one, which would put them after operations they have to precede.
+    for moment_index in sorted({i for i, _ in batch_remove}, reverse=True):
+        unrolled_circuit.batch_remove([(i, op) for i, op in batch_remove if i == moment_index])
+        for i, op_tree in batch_insert:
+            if i == moment_index:
+                unrolled_circuit.insert(i, op_tree, strategy=circuits.InsertStrategy.EARLIEST)
     return _to_target_circuit_type(unrolled_circuit, circuit)
 
 
